@@ -18,7 +18,7 @@ RULE = ("enumeration, sharded: all 3600 product ids; all 13149 dates 2014-01-01.
         "date (quick: 20k sampled shapes, thorough: all ~3.8e5); near-misses: every single-character replacement by one "
         "representative of each character class (incl. non-ASCII decimal digits and letters), every single deletion, insertions and trailing garbage on sampled valid strings "
         "(quick ~6k, thorough ~60k), classified by the independent recogniser; 96 (quick) / 600 (thorough) ids end to end. "
-        "evaluations = strings decoded; distinct = distinct strings")
+        "evaluations = strings decoded; distinct = distinct strings (union over all shards of 48-bit hashes of the decoded strings, counted)")
 ASSUMPTIONS = ["two-digit years are resolved relative to the current year (2026 => 1976..2075), which covers 2014..2049",
                "mission name fixed to ALOS2 (there is no code table for it)",
                "'scan' in the uniqueness clause is the scan number (a product has either B or F scans)",
@@ -70,11 +70,13 @@ def run_case(i, tier, seed):
            "near_misses_still_valid": 0, "group_names": 0, "end_to_end": 0}
     violations = []
     strings = 0
+    seen = set()
     sample = None
 
     def check_decode(fn, s, want, what):
         nonlocal strings
         strings += 1
+        seen.add(_h(s))
         try:
             got = fn(s)
         except Exception as e:
@@ -144,6 +146,7 @@ def run_case(i, tier, seed):
             except Exception as e:
                 got = e
             strings += 1
+            seen.add(_h(s))
             obs["file_names"] += 1
             if isinstance(got, Exception):
                 violations.append({"what": f"file name {s!r} of the documented language rejected: {harness.exc_sig(got)}", "detail": {}})
@@ -186,6 +189,7 @@ def run_case(i, tier, seed):
                 tree = harness.open_tree(url, use_cache=False)
                 obs["end_to_end"] += 1
                 strings += 1
+                seen.add(_h("e2e:" + pid + "|" + "|".join(info["names"]["imgs"])))
                 want = idlang.decode_product_id(pid)
                 got = {k2: tree["summary/product_specification"].attrs.get(k2) for k2 in want}
                 if got != want:
@@ -203,11 +207,21 @@ def run_case(i, tier, seed):
             finally:
                 synth.uninstall(files, root, "memory")
         sample = {"end_to_end_product_id": pid}
-    return {"sig": f"shard{i}", "evals": strings, "violations": violations[:8], "obs": obs, "sample": sample, "strings": strings}
+    return {"sig": f"shard{i}", "evals": strings, "violations": violations[:8], "obs": obs, "sample": sample, "strings": strings,
+            "seen": sorted(seen)}
+
+
+def _h(s):
+    import hashlib
+
+    return int.from_bytes(hashlib.blake2b(s.encode("utf-8", "surrogatepass"), digest_size=6).digest(), "big")
 
 
 def finish(results, tier, seed):
-    total = sum(r.get("strings", 0) for r in results)
+    union = set()
+    for r in results:
+        union.update(r.get("seen", ()))
+    total = len(union)
     return {"distinct_nontrivial": total, "exhaustive": tier == "thorough",
             "exhaustive_subdomain": "all 3600 product ids, all dates 2014..2049, all scan suffixes, all 44 (polarisation, scan number) group names"
                                     + ("; all file-name shapes" if tier == "thorough" else "; file names sampled")}
